@@ -125,6 +125,7 @@ MENU = [
     [("loopa", "loopb"), ("loopb", "loopa")], [("d/up", "..")], [("up", "..")], [("sub/deeplink", "../../outside/deep")],
     [("evil.txt", "$T/outside/deep/victim.txt")], [("outdirlink", "../outside/deep/..")], [("back", "../outside/../@R/d")],
     [("new", "../outside")], [("newdir", "$T/outside/deep")], [("abstop", "$T")],
+    [("privlink", "../@R-private")], [("privfile", "$T/@R-private/key.pem")], [("sub/oldlink", "../sub-old")],
 ]
 
 
@@ -133,8 +134,11 @@ def gen_tree(rng, symroot=False, force=None):
     t = [[R, "d"], [R + "/a.txt", "f", "IN-A"], [R + "/d", "d"], [R + "/d/c.txt", "f", "IN-C"], [R + "/sub", "d"],
          [R + "/sub/b.txt", "f", "IN-B"], ["outside", "d"], ["outside/secret.txt", "f", "OUTSIDE-SECRET"],
          ["outside/deep", "d"], ["outside/deep/victim.txt", "f", "OUTSIDE-VICTIM"]]
+    # siblings whose names have the root's name as a textual prefix (a containment test on path text would accept them)
+    t += [[R + "-private", "d"], [R + "-private/key.pem", "f", "OUTSIDE-KEY"], [R + "x", "f", "OUTSIDE-ROOTX"],
+          [R + "/sub-old", "d"], [R + "/sub-old/b.txt", "f", "OUTSIDE-SUBOLD"]]
     if symroot:
-        t.append(["rootlink", "l", "realroot"])
+        t += [["rootlink", "l", "realroot"], ["rootlink-private", "l", "realroot-private"]]
     links = []
     for grp in (force if force is not None else rng.sample(MENU, rng.choice([0, 1, 1, 2, 2, 3, 4]))):
         links += grp
@@ -163,14 +167,19 @@ def gen_tree(rng, symroot=False, force=None):
     return t, [p for p, _ in links]
 
 
-TAILS = ["secret.txt", "evil.txt", "deep/victim.txt", "new/evil.txt", "a.txt", "root/a.txt", "realroot/a.txt", "d/c.txt", "",
+TAILS = ["key.pem", "b.txt", "secret.txt", "evil.txt", "deep/victim.txt", "new/evil.txt", "a.txt", "root/a.txt", "realroot/a.txt", "d/c.txt", "",
          "deep", "newfile.txt", "c.txt", "x"]
 FIXED_IDS = ["a.txt", "d/c.txt", "sub/b.txt", "new.txt", "newdir/new.txt", "d", "../outside/secret.txt", "sub/../a.txt",
              "sub/../../outside/secret.txt", "d/../../root/a.txt", "..", "../root/a.txt", "sub/..", "./a.txt", ".//d///c.txt/",
              "d/./c.txt", "/etc/passwd", "$T/outside/secret.txt", "$T/root/a.txt", "/", "..\\outside\\secret.txt", "sub\\b.txt",
              "d/..\\..\\outside", "\\", "%2e%2e/outside/secret.txt", "..%2foutside%2fsecret.txt", "%2e%2e%2foutside", "d%2fc.txt",
              "%5c", "", ".", "./", "//", "./.", "a.txt/", "a.txt/.", "a.txt/..", "a.txt/x", "../a.txt", "../sub/b.txt", "../d/c.txt",
-             "../../outside/secret.txt", "../../root/a.txt", "...", ".../a.txt", "d/...", " ", "a.txt ", "d/ /x"]
+             "../../outside/secret.txt", "../../root/a.txt", "...", ".../a.txt", "d/...", " ", "a.txt ", "d/ /x",
+             # siblings whose names extend the name of the base / root directory
+             "../root-private/key.pem", "../root-private", "../root-private/new.txt", "../rootx", "../../root-private/key.pem",
+             "sub/../../root-private/key.pem", "../realroot-private/key.pem", "../rootlink-private/key.pem",
+             "../../realroot-private/key.pem", "../../rootlink-private/key.pem", "../sub-old/b.txt", "../sub-old/new.txt", "../sub-old",
+             "../root-private/../root-private/key.pem", "./../root-private/key.pem"]
 
 
 def gen_ident(rng, link_names):
@@ -199,11 +208,18 @@ def gen_fs_case(rng, i, op=None):
         c["base"], c["rroot"] = top + "/sub", top            # nested ingredient: base below the containment root
         if c["op"] == "builder_add":
             c["op"] = "add"
-    elif cfg < 0.27 and c["op"] in ("add", "get", "exists"):
+    elif cfg < 0.3:
+        c["base"] = top + "/sub"                              # base below the top directory, no wider root: sub-old is outside
+    elif cfg < 0.37 and c["op"] in ("add", "get", "exists"):
         c["base"] = top + "/nb"                               # base directory does not exist yet
     ident = gen_ident(rng, links)
     if c["rroot"] and rng.random() < 0.6:
         ident = "../" + ident
+    if rng.random() < 0.12:                                   # aim at a sibling whose name extends the base / root name
+        up = "../" * (c["base"].count("/") + 1)             # from the base up to the case directory
+        top1 = split_path(c["base"])[0]
+        ident = rng.choice([up + top1 + "-private/key.pem", up + top1 + "-private/new.txt", up + top1 + "x",
+                            "../" + split_path(c["base"])[-1] + "-old/b.txt"])
     c["ident"] = ident
     return c
 
@@ -288,11 +304,20 @@ def corpus():
 INSIDE_TOPS = ("root", "realroot", "rootlink", "dest")
 
 
+def is_inside(c, path):
+    """is this tree entry under the (lexical) root of the case, or under the real directory a symlinked root stands for?"""
+    root = c.get("rroot") or c["base"]
+    roots = [root]
+    if root.startswith("rootlink"):
+        roots.append("realroot" + root[len("rootlink"):])
+    return any(under(r, path) for r in roots)
+
+
 def outside_variants(c):
     """B: every regular file outside the root removed (directories stay, so that a link that merely passes through an
     outside directory and comes back resolves as before); C: contents of outside files changed"""
-    tb = [e for e in c["tree"] if split_path(e[0])[0] in INSIDE_TOPS or e[1] != "f"]
-    tc = [(e if (e[1] != "f" or split_path(e[0])[0] in INSIDE_TOPS) else [e[0], "f", e[2] + "-CHANGED"]) for e in c["tree"]]
+    tb = [e for e in c["tree"] if e[1] != "f" or is_inside(c, e[0])]
+    tc = [(e if (e[1] != "f" or is_inside(c, e[0])) else [e[0], "f", e[2] + "-CHANGED"]) for e in c["tree"]]
     return tb, tc
 
 
@@ -464,7 +489,8 @@ def evaluate(ctx, cases, with_model=True):
                 kind = "modified" if any(p == q for q, _ in r["modified"] for p in bad) else "created"
                 ctx.report_violation(show, f"{op} {kind} {bad[0]} outside the manifest root {rootname} (identifier {c['ident']!r})", mi)
             # (b) content of an outside file returned
-            if r.get("content") is not None and str(r["content"]).startswith("OUTSIDE-"):
+            src_files = [e[0] for e in c["tree"] if e[1] == "f" and e[2] == r.get("content")]
+            if r.get("content") is not None and src_files and not any(is_inside(c, p) for p in src_files):
                 ctx.report_violation(show, f"{op} returned the content of a file outside the manifest root: {r['content']!r}", mi)
             if r.get("content") is not None:
                 stats["reads_ok"] += 1
@@ -500,6 +526,17 @@ def to_folder_rels():
 
 
 def facts(ctx):
+    """anchors of the transcription; a missing anchor is reported as a broken tie and the run goes on"""
+    try:
+        _facts(ctx)
+    except TieBroken as ex:
+        if hasattr(ctx, "tie_errors"):
+            ctx.tie_errors.append(str(ex))
+        else:
+            raise
+
+
+def _facts(ctx):
     # anchors of the transcription
     ps = common.strip_tests(common.src("sdk/src/utils/path_utils.rs"))
     body = common.fn_body(ps, r"pub\(crate\)\s+fn\s+sanitize_archive_path\s*\(", "sanitize_archive_path")
